@@ -84,7 +84,7 @@ const std::map<std::string, Adder> &catalogue() {
     {"vec_cref", [](ChaiScript_Basic &ch, const std::string &n) { ch.add(fun([](const std::vector<int> &a) { enter("vec_cref", {val(static_cast<int>(a.size()))}, {0}); return 1; }), n); }},
     {"fn", [](ChaiScript_Basic &ch, const std::string &n) { ch.add(fun([](const std::function<int(int)> &f) { enter("fn", {val(f(10))}, {0}); return 1; }), n); }},
     {"bv", [](ChaiScript_Basic &ch, const std::string &n) { ch.add(fun([](const Boxed_Value &a) { enter("bv", {a.get_type_info().bare_name()}, {0}); return 1; }), n); }},
-    {"bn", [](ChaiScript_Basic &ch, const std::string &n) { ch.add(fun([](const Boxed_Number &a) { enter("bn", {val(a.get_as<int>())}, {0}); return 1; }), n); }},
+    {"bn", [](ChaiScript_Basic &ch, const std::string &n) { ch.add(fun([](const Boxed_Number &a) { enter("bn", {std::to_string(a.get_as<long long>())}, {0}); return 1; }), n); }},
     {"int_str", [](ChaiScript_Basic &ch, const std::string &n) { ch.add(fun([](int a, const std::string &b) { enter("int_str", {val(a), val(b)}, {0, addr(&b)}); return 1; }), n); }},
     {"str_int", [](ChaiScript_Basic &ch, const std::string &n) { ch.add(fun([](const std::string &a, int b) { enter("str_int", {val(a), val(b)}, {addr(&a), 0}); return 1; }), n); }},
     {"dbl_dbl", [](ChaiScript_Basic &ch, const std::string &n) { ch.add(fun([](double a, double b) { enter("dbl_dbl", {std::to_string(static_cast<long>(a * 1000)), std::to_string(static_cast<long>(b * 1000))}, {0, 0}); return 1; }), n); }},
